@@ -115,6 +115,15 @@ class Matcher:
                     finally:
                         self._depth -= 1
             return False
+        if isinstance(t, ast.Compare) and len(t.ops) == 1 and isinstance(t.ops[0], (ast.Eq, ast.NotEq)) and len(n.ops) == 1 \
+                and type(n.ops[0]) is type(t.ops[0]):
+            # == and != are symmetric: the operands may appear in either order
+            for nl, nr in ((n.left, n.comparators[0]), (n.comparators[0], n.left)):
+                trial = Binds(b)
+                if self._m(nl, t.left, trial) and self._m(nr, t.comparators[0], trial):
+                    b.update(trial)
+                    return True
+            return False
         if isinstance(t, ast.Constant):
             return type(n.value) is type(t.value) and n.value == t.value or (
                 isinstance(n.value, (int, float)) and isinstance(t.value, (int, float))
